@@ -133,6 +133,14 @@ def main():
         po["leanchecker"] = "ok" if ok else log
         if not ok:
             po["broken"].append("leanchecker rejects the compiled module: " + log[-500:])
+    if prop in ("C01", "C02", "C03", "C04", "C05", "C06", "C13") and not args.replay:
+        # the soft binary64 of the model against the hardware Float (interpreted Lean): 20 000 random operand pairs per
+        # operation in the quick tier, 1 000 000 in the thorough tier, plus boundary cases and constants
+        n = "20000" if tier == "quick" else "1000000"
+        p = core.sh(["lake", "env", "lean", "--run", "CvssVerif/Test/F64Test.lean", n], cwd=core.LEAN, timeout=3600, check=False)
+        po["f64_selftest"] = p.stdout.strip().splitlines()[-1] if p.stdout.strip() else "no output"
+        if p.returncode != 0:
+            po["broken"].append("soft-float self-test against the hardware Float failed: " + p.stdout[-500:])
     rng = core.Rng(seed)
     if args.replay:
         outcome = spec.replay(rp)
@@ -156,6 +164,7 @@ def main():
             "broken_obligations": po["broken"],
             "source_hygiene_hits": po.get("hygiene_hits", []),
             "leanchecker": po.get("leanchecker", "not run in this tier"),
+            "f64_selftest": po.get("f64_selftest", "not applicable to this property"),
             "evaluations": outcome.evaluations,
             "distinct_nontrivial": outcome.distinct,
             "rule": outcome.rule,
